@@ -22,7 +22,9 @@ RULE = ("cases are strings: (tokens) every sequence of <=4 (thorough <=5) tokens
         "breaks and printable Unicode; (own) outputs of all writers on generated caption sets "
         "whose text avoids the other formats' markers. Non-trivial: the string has at most two "
         "lines, or is a truncated document, or at least one reader's detect() accepts it; for "
-        "'own': every case (writer output with metacharacter text). Distinct = distinct JSON.")
+        "'own': every case (writer output with metacharacter text). Distinct = distinct JSON. "
+        'Own-output sets include cues shorter than a MicroDVD frame early in the file (only '
+        'cues wholly inside frame 0 are excluded). ')
 ASSUMPTIONS = [
     "documented detection order DFXP, MicroDVD, WebVTT, SAMI, SRT, SCC is hard-coded here",
     "'another format's marker' = the substrings WEBVTT, <sami, </tt> (any case) and a first "
